@@ -186,12 +186,12 @@ def run(run: Run):
             if bad:
                 run.violation(f"decoder panicked on a {len(s_)}-byte string ({profile}): {r['decode'][:120]}", {"kind": "codec", "hex": s_.hex(), "profile": profile})
     # the model predicts the Ok/Err class: a logged release run over the free-module group
-    mspecs = gen_specs(run, "fm")[: (3 if run.tier == "quick" else 10)]
+    mspecs = gen_specs(run, "fm")[: (3 if run.tier == "quick" else 6)]
     for s in mspecs:
         s["log_merlin"] = True
         s["log_msm"] = True
         for i, v in enumerate(s["verifies"]):
-            v["log"] = (i % 4 == 0)
+            v["log"] = (i % (4 if run.tier == "quick" else 7) == 0)      # coqc memory grows with the logged volume (19 GB were measured at 10 specs x every 4th)
     sessions.run_sessions(run, mspecs, None, relevant=1, name="c16m")
     return run.finish(
         "proof",
